@@ -72,6 +72,12 @@ def gen_cases(tr, sd):
     op = [(0, 1), (1, 2), (2, 2), (0, 3)] if tr == "quick" else [(m, n) for m in range(0, 5) for n in range(max(m, 1), 7)]
     for (m, n) in op:
         cases.append(dict(level="json-props", mode="cyk-json-object", kind="json", schema={"type": "object", "additionalProperties": {"const": 1}, "minProperties": m, "maxProperties": n}, mn=(m, n)))
+    # ... and with declared required properties: the budget left for additional members is maxProperties - #required
+    rq = [(1, 0, 1), (1, 1, 1), (2, 0, 2), (2, 2, 3), (1, 0, 2), (2, 1, 2)] if tr == "quick" else [(r, m, n) for r in (1, 2, 3) for n in range(r, r + 3) for m in range(0, n + 1)]
+    for (r, m, n) in rq:
+        props = {k: {"const": 1} for k in ["a", "b", "c"][:r]}
+        cases.append(dict(level="json-props-required", mode="cyk-json-object", kind="json", mn=(m, n), required=r,
+                          schema={"type": "object", "properties": props, "required": list(props), "additionalProperties": {"const": 1}, "minProperties": m, "maxProperties": n}))
     # JSON minLength / maxLength
     sp = [(0, 0), (0, 1), (1, 1), (0, 3), (2, 4), (3, 3), (1, 6)] if tr == "quick" else [(m, n) for m in range(0, 8) for n in range(m, 12)]
     for (m, n) in sp:
@@ -165,13 +171,15 @@ def _work_cyk(args):
             key = ("T", other[0])
             one, lb, rb, cm, col = ("T", lit["1"]), ("T", lit["{"]), ("T", lit["}"]), ("T", lit[","]), ("T", lit[":"])
             kv = [key, col, one]
+            rq = case.get("required", 0)
+            declared = [[("T", lit['"%s"' % nm]), col, one] for nm in ["a", "b", "c"][:rq]]
             rules = []
-            for k in range(m, n + 1):
+            for k in range(max(m, rq), n + 1):
                 body = []
                 for j in range(k):
                     if j:
                         body.append(cm)
-                    body += kv
+                    body += declared[j] if j < rq else kv
                 rules.append(("S", [lb] + body + [rb]))
             ref = gram.CFG(rules, "S")
     except KeyError as ex:
